@@ -1,0 +1,15 @@
+//go:build !verif
+
+// Package verifhook provides yield and crash points for external
+// verification harnesses. Without the "verif" build tag every function is an
+// empty, inlinable no-op.
+package verifhook
+
+// Yield marks a scheduling point before a shared access.
+func Yield(name string) {}
+
+// Crash marks a durability-relevant step.
+func Crash(name string) {}
+
+// Enabled reports whether hooks are compiled in.
+func Enabled() bool { return false }
